@@ -6,11 +6,11 @@ package verifsim
 
 import (
 	"context"
-	"sync/atomic"
 	"fmt"
 	"sort"
 	"strings"
 	"sync"
+	"sync/atomic"
 	"time"
 
 	"github.com/atlassian/gostatsd"
@@ -58,9 +58,9 @@ type yieldGate struct {
 	off    atomic.Bool // disarmed: every site passes
 	names  sync.Map    // obj (batch pointer) -> stable name for gate keys
 	obj    any
-	sites map[string]bool
-	mu    sync.Mutex
-	n     int
+	sites  map[string]bool
+	mu     sync.Mutex
+	n      int
 }
 
 func (y *yieldGate) fn(site string, obj any) {
@@ -211,7 +211,7 @@ func accumulate(total map[SeriesKey]*Obs, obs map[SeriesKey]*Obs) {
 
 func (c07) Run(e *Env) {
 	e.ProbeDecl("variant-mergemaps", "variant-consolidator", "variant-consolidator-receivemetrics", "variant-aggregator", "variant-tagstage", "variant-cloudqueue",
-		"timestamp-tie", "zero-counter-newest", "sampled-timer-second-tagset", "dispatcher-parked-holding-slot", "two-holding-slots", "lookup-between-batches", "tag-collision")
+		"timestamp-tie", "zero-counter-newest", "sampled-timer-second-tagset", "dispatcher-parked-holding-slot", "two-holding-slots", "lookup-between-batches", "tag-collision", "twin-with-repeated-tag", "two-sources-one-instance")
 	// workload: <= 8 batches over <= 5 series
 	nSeries := e.Range(1, 5)
 	type ser struct {
@@ -223,6 +223,19 @@ func (c07) Run(e *Env) {
 		s := ser{kind: []string{"counter", "timer", "gauge", "set"}[e.Draw(4)], name: []string{"m.a", "m.b"}[e.Draw(2)], source: []string{"", "10.7.0.1", "10.7.0.2"}[e.Draw(3)]}
 		for j, n := 0, e.Draw(3); j < n; j++ {
 			s.tags = append(s.tags, []string{"t:1", "t:2", "dup", "zone:a"}[e.Draw(4)])
+		}
+		if i > 0 && e.Chance(1, 4) {
+			// a twin of the previous series that differs only by a repeated tag: distinct until a stage
+			// that de-duplicates tags makes them one series
+			s = series[i-1]
+			s.tags = append([]string(nil), s.tags...)
+			if len(s.tags) == 0 {
+				s.tags = []string{"dup"}
+				series[i-1].tags = []string{"dup", "dup"}
+			} else {
+				s.tags = append(s.tags, s.tags[e.Draw(len(s.tags))])
+			}
+			e.Probe("twin-with-repeated-tag")
 		}
 		series = append(series, s)
 	}
@@ -530,11 +543,28 @@ func (c07) Run(e *Env) {
 				}
 			}
 		}
+		// some senders are already known to the cache, possibly two addresses of one instance: their
+		// series are re-keyed inside the batch and may coincide there
+		hits := map[string]*gostatsd.Instance{}
+		switch e.Draw(3) {
+		case 1:
+			hits["10.7.0.1"] = inst
+		case 2:
+			hits["10.7.0.1"], hits["10.7.0.2"] = inst, inst
+			e.Probe("two-sources-one-instance")
+		}
+		for _, src := range []string{"10.7.0.1", "10.7.0.2"} {
+			if in, ok := hits[src]; ok {
+				cache.set(gostatsd.Source(src), peekEntry{hit: true, inst: in})
+			}
+		}
 		for n, i := range order {
 			b := batches[i]
 			for _, d := range b {
 				if d.source == "" {
 					finalise(d, nil)
+				} else if in, ok := hits[d.source]; ok {
+					finalise(d, in)
 				} else {
 					parked[gostatsd.Source(d.source)] = append(parked[gostatsd.Source(d.source)], d)
 				}
